@@ -254,9 +254,9 @@ SPECS["C20"] = dict(
 # --------------------------------------------------------------------------------------------- C18 (encodings only)
 SPECS["C18"] = dict(
     level="model_checking",
-    technique="bounded symbolic execution of the real key/signature encoders over the real base64 crate (Kani/CBMC, SAT)",
-    bounds="every 32-byte public key and every 64-byte secret key (encode -> decode), every (part1, part2) signature value (flatten)",
-    outside="PARTIAL CLAIM: ed25519 sign/verify soundness, bit-flip rejection and batch==individual are NOT decided (curve arithmetic and SHA-512 are out of reach of bit-blasting); secret-key round trip (thorough); JSON key/committee files (serde_json, file I/O)",
+    technique="bounded symbolic execution of the real key/signature encoders over the real base64 crate, and of the real Signature::{new,verify,verify_batch} wrappers over an ideal signature primitive (Kani/CBMC, SAT)",
+    bounds="every 32-byte public key and every 64-byte secret key (encode -> decode), every (part1, part2) signature value (flatten); batches of 0, 1 and 3 members with every key / signature / digest byte symbolic (wrapper logic over the ideal primitive)",
+    outside="PARTIAL CLAIM: ed25519 itself (sign/verify soundness, bit-flip rejection, batch==individual INSIDE the primitive) is NOT decided - curve arithmetic and SHA-512 are out of reach of bit-blasting; sign/verify/batch are decided only for the first-party wrappers over the ideal primitive (signature = signer key || message; 32-byte strings ending in 0xFF model encodings that are not curve points); batches above 3; secret-key round trip (thorough); JSON key/committee files (serde_json, file I/O)",
     trusted_base=TB_R,
     assumptions=[],
     harnesses=[
@@ -266,6 +266,10 @@ SPECS["C18"] = dict(
         H("crypto_r", "c18_pk_roundtrip_head", profile="R", pkg="crypto", stubbing=True, timeout=900, mem_gb=16, symbolic="key bytes 0..6 (others zero)", asserts="decode_base64(encode_base64(k)) == k; text length 44"),
         H("crypto_r", "c18_pk_roundtrip_mid", profile="R", pkg="crypto", stubbing=True, timeout=900, mem_gb=16, symbolic="key bytes 13..19", asserts="as head"),
         H("crypto_r", "c18_pk_roundtrip_tail", profile="R", pkg="crypto", stubbing=True, timeout=900, mem_gb=16, symbolic="key bytes 26..32 (the padded tail)", asserts="as head"),
+        H("crypto_r", "c18_batch_equiv_k0", profile="R", pkg="crypto", stubbing=True, timeout=900, symbolic="digest; empty batch", asserts="Signature::verify_batch accepts exactly when every member verifies individually (IDEAL primitive: wrapper logic only)"),
+        H("crypto_r", "c18_batch_equiv_k1", profile="R", pkg="crypto", stubbing=True, timeout=900, symbolic="digest, 1 (key, signature) pair: all 96 bytes", asserts="as k0"),
+        H("crypto_r", "c18_batch_equiv_k3", profile="R", pkg="crypto", stubbing=True, timeout=1200, mem_gb=20, symbolic="digest, 3 (key, signature) pairs: all bytes, incl. keys that do not parse, any position", asserts="as k0"),
+        H("crypto_r", "c18_sign_verify_ideal", profile="R", pkg="crypto", stubbing=True, timeout=900, symbolic="secret seed, public key, 2 digests, another key", asserts="Signature::new(d, sk).verify(d, pk) holds; fails for another digest / another key (IDEAL primitive)"),
     ],
 )
 
